@@ -89,6 +89,10 @@ impl<'a> LongChain<'a> {
     pub fn insert(&mut self, index: usize, cow: CowBytes<'a>) {
         #[cfg(debug_assertions)]
         self.verify_invariants();
+        if cow.is_empty() {
+            // An empty segment would be exposed as an empty `chunk()` while bytes remain
+            return;
+        }
         self.total_remaining_len += cow.len();
         self.data.insert(index, cow);
     }
@@ -110,6 +114,10 @@ impl<'a> LongChain<'a> {
     pub fn push(&mut self, cow: CowBytes<'a>) {
         #[cfg(debug_assertions)]
         self.verify_invariants();
+        if cow.is_empty() {
+            // An empty segment would be exposed as an empty `chunk()` while bytes remain
+            return;
+        }
         self.total_remaining_len += cow.len();
         self.data.push(cow);
     }
@@ -179,6 +187,10 @@ impl<'a> LongChain<'a> {
     pub fn truncate(&mut self, len: usize) {
         #[cfg(debug_assertions)]
         self.verify_invariants();
+        if len >= self.total_remaining_len {
+            // Nothing to drop (same as `Bytes::truncate`)
+            return;
+        }
         let mut remaining = len;
         let mut truncate_index = 0;
         while truncate_index < self.data.len() {
